@@ -261,14 +261,17 @@ theorem removeUnreachable_spec (cfg : Cfg) (fs : FS) (w : WS) (h : PInv cfg fs w
 
 /-- the loop body of `addMissingReachableLocked` -/
 def addStep (cfg : Cfg) (fsr : FS) (wa : WS × Bool) (path : String) : WS × Bool :=
-  if (wa.1.idx.files.get path).isSome then wa else
   match fsr.get path with
   | none => wa
   | some c => (updateResolved (putFile cfg wa.1 path c []) path c, true)
 
-theorem addMissing_eq (cfg : Cfg) (σ : List String) (fsr : FS) (w : WS) (R : List String) :
-    addMissingReachable cfg σ fsr w R =
-      (let r := (orderBy σ R).foldl (addStep cfg fsr) (w, false)
+/-- the paths `addMissingReachableLocked` tries, in its order -/
+def missingOf (w : WS) (R : List String) : List String :=
+  isort (R.filter fun p => (w.idx.files.get p).isNone)
+
+theorem addMissing_eq (cfg : Cfg) (fsr : FS) (w : WS) (R : List String) :
+    addMissingReachable cfg fsr w R =
+      (let r := (missingOf w R).foldl (addStep cfg fsr) (w, false)
        if r.2 then (clearCaches r.1, true) else r) := rfl
 
 /-- what the disk shows for files that are not indexed is what the invariant is about -/
@@ -335,28 +338,32 @@ structure AddAll (cfg : Cfg) (fsr fsd : FS) (w : WS) (b : Bool) (L : List String
   files : ∀ y, (w'.idx.files.get y).isSome ↔
     ((w.idx.files.get y).isSome ∨ (y ∈ L ∧ (fsr.get y).isSome))
   keep : ∀ y fi, w.idx.files.get y = some fi → w'.idx.files.get y = some fi
-  flag : b' = true ↔ (b = true ∨ ∃ y ∈ L, w.idx.files.get y = none ∧ (fsr.get y).isSome)
+  flag : b' = true ↔ (b = true ∨ ∃ y ∈ L, (fsr.get y).isSome)
   reach : ∀ u, ReachS (succG w.incG) w.root u → ReachS (succG w'.incG) w.root u
   root : w'.root = w.root
   caches : w'.cFormats = w.cFormats ∧ w'.cComms = w.cComms ∧ w'.cAccts = w.cAccts
 
+/-- the loop over the missing files: distinct paths, none of them indexed -/
 theorem addAll (cfg : Cfg) (fsr fsd : FS) (hok : fsOk fsd = true) :
-    ∀ (L : List String) (w : WS) (b : Bool), PInv cfg fsd w → Agree fsr fsd w →
+    ∀ (L : List String) (w : WS) (b : Bool), PInv cfg fsd w → Agree fsr fsd w → L.Nodup →
+      (∀ x ∈ L, w.idx.files.get x = none) →
       AddAll cfg fsr fsd w b L ((L.foldl (addStep cfg fsr) (w, b)).1)
         ((L.foldl (addStep cfg fsr) (w, b)).2) := by
   intro L
   induction L with
   | nil =>
-    intro w b h hag
+    intro w b h hag _ _
     exact ⟨h, hag, fun y => by simp, fun y fi h => h, by simp, fun u h => h, rfl, ⟨rfl, rfl, rfl⟩⟩
   | cons x L ih =>
-    intro w b h hag
+    intro w b h hag hn hL
+    rw [List.nodup_cons] at hn
+    have hxn : w.idx.files.get x = none := hL x List.mem_cons_self
     simp only [List.foldl_cons]
-    by_cases hx : (w.idx.files.get x).isSome
-    · -- already indexed
-      have e : addStep cfg fsr (w, b) x = (w, b) := by simp [addStep, hx]
+    cases hc : fsr.get x with
+    | none =>
+      have e : addStep cfg fsr (w, b) x = (w, b) := by simp [addStep, hc]
       rw [e]
-      have := ih w b h hag
+      have := ih w b h hag hn.2 (fun y hy => hL y (List.mem_cons_of_mem _ hy))
       refine ⟨this.pinv, this.agree, ?_, this.keep, ?_, this.reach, this.root, this.caches⟩
       · intro y
         rw [this.files y]
@@ -367,100 +374,94 @@ theorem addAll (cfg : Cfg) (fsr fsd : FS) (hok : fsOk fsd = true) :
         · rintro (h1 | ⟨h1, h2⟩)
           · exact Or.inl h1
           · rcases List.mem_cons.mp h1 with h1 | h1
-            · exact Or.inl (h1 ▸ hx)
+            · subst h1; rw [hc] at h2; simp at h2
             · exact Or.inr ⟨h1, h2⟩
       · rw [this.flag]
         constructor
         · rintro (h1 | ⟨y, h1, h2⟩)
           · exact Or.inl h1
           · exact Or.inr ⟨y, List.mem_cons_of_mem _ h1, h2⟩
-        · rintro (h1 | ⟨y, h1, h2, h3⟩)
+        · rintro (h1 | ⟨y, h1, h3⟩)
           · exact Or.inl h1
           · rcases List.mem_cons.mp h1 with h1 | h1
-            · subst h1; rw [h2] at hx; simp at hx
-            · exact Or.inr ⟨y, h1, h2, h3⟩
-    · have hxn : w.idx.files.get x = none := by
-        cases e : w.idx.files.get x with
-        | none => rfl
-        | some _ => simp [e] at hx
-      cases hc : fsr.get x with
-      | none =>
-        have e : addStep cfg fsr (w, b) x = (w, b) := by simp [addStep, hxn, hc]
-        rw [e]
-        have := ih w b h hag
-        refine ⟨this.pinv, this.agree, ?_, this.keep, ?_, this.reach, this.root, this.caches⟩
-        · intro y
-          rw [this.files y]
-          constructor
-          · rintro (h1 | ⟨h1, h2⟩)
-            · exact Or.inl h1
-            · exact Or.inr ⟨List.mem_cons_of_mem _ h1, h2⟩
-          · rintro (h1 | ⟨h1, h2⟩)
-            · exact Or.inl h1
-            · rcases List.mem_cons.mp h1 with h1 | h1
-              · subst h1; rw [hc] at h2; simp at h2
-              · exact Or.inr ⟨h1, h2⟩
-        · rw [this.flag]
-          constructor
-          · rintro (h1 | ⟨y, h1, h2⟩)
-            · exact Or.inl h1
-            · exact Or.inr ⟨y, List.mem_cons_of_mem _ h1, h2⟩
-          · rintro (h1 | ⟨y, h1, h2, h3⟩)
-            · exact Or.inl h1
-            · rcases List.mem_cons.mp h1 with h1 | h1
-              · subst h1; rw [hc] at h3; simp at h3
-              · exact Or.inr ⟨y, h1, h2, h3⟩
-      | some c =>
-        have e : addStep cfg fsr (w, b) x = (updateResolved (putFile cfg w x c []) x c, true) := by
-          simp [addStep, hxn, hc]
-        rw [e]
-        obtain ⟨a1, a2, a3, a4, a5, a6⟩ := addOne cfg fsr fsd w x c h hok hag hxn hc
-        have := ih _ true a1 a2
-        refine ⟨this.pinv, this.agree, ?_, ?_, ?_, ?_, this.root.trans a5, ?_⟩
-        · intro y
-          rw [this.files y, a3 y]
-          by_cases e2 : x = y
-          · subst e2
-            simp [hc]
-          · have : ¬ y = x := fun h => e2 h.symm
-            simp [e2, this]
-        · intro y fi hy
-          apply this.keep
-          rw [a3 y]
-          by_cases e2 : x = y
-          · subst e2; rw [hxn] at hy; simp at hy
-          · simp [e2, hy]
-        · rw [this.flag]
-          simp only [true_or, true_iff]
-          exact Or.inr ⟨x, List.mem_cons_self, hxn, by rw [hc]; rfl⟩
-        · intro u hu
-          rw [← a5]
-          exact this.reach u (a5 ▸ a4 u hu)
-        · obtain ⟨c1, c2, c3⟩ := this.caches
-          exact ⟨c1.trans a6.1, c2.trans a6.2.1, c3.trans a6.2.2⟩
+            · subst h1; rw [hc] at h3; simp at h3
+            · exact Or.inr ⟨y, h1, h3⟩
+    | some c =>
+      have e : addStep cfg fsr (w, b) x = (updateResolved (putFile cfg w x c []) x c, true) := by
+        simp [addStep, hc]
+      rw [e]
+      obtain ⟨a1, a2, a3, a4, a5, a6⟩ := addOne cfg fsr fsd w x c h hok hag hxn hc
+      have := ih _ true a1 a2 hn.2 (by
+        intro y hy
+        have hne : ¬ x = y := fun e => hn.1 (e ▸ hy)
+        rw [a3 y]
+        simp only [hne, if_false]
+        exact hL y (List.mem_cons_of_mem _ hy))
+      refine ⟨this.pinv, this.agree, ?_, ?_, ?_, ?_, this.root.trans a5, ?_⟩
+      · intro y
+        rw [this.files y, a3 y]
+        by_cases e2 : x = y
+        · subst e2
+          simp [hc]
+        · have : ¬ y = x := fun h => e2 h.symm
+          simp [e2, this]
+      · intro y fi hy
+        apply this.keep
+        rw [a3 y]
+        by_cases e2 : x = y
+        · subst e2; rw [hxn] at hy; simp at hy
+        · simp [e2, hy]
+      · rw [this.flag]
+        simp only [true_or, true_iff]
+        exact Or.inr ⟨x, List.mem_cons_self, by rw [hc]; rfl⟩
+      · intro u hu
+        rw [← a5]
+        exact this.reach u (a5 ▸ a4 u hu)
+      · obtain ⟨c1, c2, c3⟩ := this.caches
+        exact ⟨c1.trans a6.1, c2.trans a6.2.1, c3.trans a6.2.2⟩
 
 /-! ### one round -/
 
-theorem mem_orderBy (σ xs : List String) (x : String) : x ∈ orderBy σ xs ↔ x ∈ xs := by
-  unfold orderBy
-  simp only [List.mem_append, mem_dedup, List.mem_filter, decide_eq_true_eq, List.mem_filter]
-  constructor
-  · rintro (h | h)
-    · exact h.2
-    · exact h.1
-  · intro h
-    by_cases e : x ∈ σ
-    · exact Or.inl ⟨e, h⟩
-    · exact Or.inr ⟨h, by simp [e]⟩
+theorem bfsF_nodup (g : AList (List String)) :
+    ∀ (n : Nat) (q r : List String), r.Nodup → (bfsF g n q r).Nodup := by
+  intro n
+  induction n with
+  | zero => intro q r h; simpa [bfsF] using h
+  | succ n ih =>
+    intro q r h
+    cases q with
+    | nil => simpa [bfsF] using h
+    | cons p q =>
+      unfold bfsF
+      split
+      · exact ih _ _ h
+      · rename_i hp
+        apply ih
+        rw [List.nodup_append]
+        exact ⟨h, by simp, fun a ha b hb => by
+          simp only [List.mem_singleton] at hb; subst hb; exact fun e => hp (e ▸ ha)⟩
+
+theorem computeReachable_nodup (w : WS) : (computeReachable w).Nodup := by
+  unfold computeReachable
+  split
+  · simp
+  · exact bfsF_nodup _ _ _ _ (by simp)
+
+theorem mem_missingOf (w : WS) (R : List String) (x : String) :
+    x ∈ missingOf w R ↔ (x ∈ R ∧ w.idx.files.get x = none) := by
+  simp [missingOf, List.mem_filter, Option.isNone_iff_eq_none]
+
+theorem missingOf_nodup (w : WS) (R : List String) (h : R.Nodup) : (missingOf w R).Nodup :=
+  isort_nodup _ (List.Pairwise.filter _ h)
 
 /-- one iteration of the loop of `refreshIncludeTreeLocked` -/
-def round (cfg : Cfg) (σ : List String) (fsr : FS) (w : WS) : WS × Bool :=
-  addMissingReachable cfg σ fsr (removeUnreachable cfg w (computeReachable w)) (computeReachable w)
+def round (cfg : Cfg) (fsr : FS) (w : WS) : WS × Bool :=
+  addMissingReachable cfg fsr (removeUnreachable cfg w (computeReachable w)) (computeReachable w)
 
-theorem refreshF_succ (cfg : Cfg) (σ : List String) (fsr : FS) (n : Nat) (w : WS) :
-    refreshF cfg σ fsr (n + 1) w =
-      if (round cfg σ fsr w).2 then refreshF cfg σ fsr n (round cfg σ fsr w).1
-      else (round cfg σ fsr w).1 := rfl
+theorem refreshF_succ (cfg : Cfg) (fsr : FS) (n : Nat) (w : WS) :
+    refreshF cfg fsr (n + 1) w =
+      if (round cfg fsr w).2 then refreshF cfg fsr n (round cfg fsr w).1
+      else (round cfg fsr w).1 := rfl
 
 theorem clearCaches_of_none (w : WS) (h : CachesNone w) : clearCaches w = w := by
   obtain ⟨h1, h2, h3⟩ := h
@@ -516,10 +517,10 @@ structure RoundOk (cfg : Cfg) (fsr fsd : FS) (w w' : WS) (b : Bool) : Prop where
   closed : b = false → Closed fsd w'
   less : Sound w → b = true → mu fsr w' < mu fsr w
 
-theorem round_ok (cfg : Cfg) (σ : List String) (fsr fsd : FS) (w : WS)
+theorem round_ok (cfg : Cfg) (fsr fsd : FS) (w : WS)
     (h : PInv cfg fsd w) (hok : fsOk fsd = true) (hnone : CachesNone w)
     (hag : Agree fsr fsd w) (hkeep : Keep fsr fsd w) :
-    RoundOk cfg fsr fsd w (round cfg σ fsr w).1 (round cfg σ fsr w).2 := by
+    RoundOk cfg fsr fsd w (round cfg fsr w).1 (round cfg fsr w).2 := by
   have hR := mem_computeReachable w h.root_ne
   obtain ⟨r1, r2, r3, r4, r5⟩ := removeUnreachable_spec cfg fsd w h
   generalize hw1 : removeUnreachable cfg w (computeReachable w) = w1 at r1 r2 r3 r4 r5
@@ -531,15 +532,17 @@ theorem round_ok (cfg : Cfg) (σ : List String) (fsr fsd : FS) (w : WS)
     · apply Classical.byContradiction
       intro hne
       exact e ((hR q).mpr (hkeep q hne))
-  have ha := addAll cfg fsr fsd hok (orderBy σ (computeReachable w)) w1 false r1 hag1
-  generalize hw2 : (List.foldl (addStep cfg fsr) (w1, false) (orderBy σ (computeReachable w))) = r at ha
+  have ha := addAll cfg fsr fsd hok (missingOf w1 (computeReachable w)) w1 false r1 hag1
+    (missingOf_nodup _ _ (computeReachable_nodup w))
+    (fun x hx => ((mem_missingOf _ _ _).mp hx).2)
+  generalize hw2 : (List.foldl (addStep cfg fsr) (w1, false) (missingOf w1 (computeReachable w))) = r at ha
   have hnone1 : CachesNone w1 := by
     obtain ⟨c1, c2, c3⟩ := r5
     exact ⟨c1.trans hnone.1, c2.trans hnone.2.1, c3.trans hnone.2.2⟩
   have hnone2 : CachesNone r.1 := by
     obtain ⟨c1, c2, c3⟩ := ha.caches
     exact ⟨c1.trans hnone1.1, c2.trans hnone1.2.1, c3.trans hnone1.2.2⟩
-  have hround : round cfg σ fsr w = (r.1, r.2) := by
+  have hround : round cfg fsr w = (r.1, r.2) := by
     unfold round
     rw [hw1, addMissing_eq]
     simp only [hw2]
@@ -567,7 +570,7 @@ theorem round_ok (cfg : Cfg) (σ : List String) (fsr fsd : FS) (w : WS)
   · intro y hy
     rcases (ha.files y).mp hy with h1 | ⟨h1, _⟩
     · exact hreach12 y (hidx1 y h1)
-    · exact hreach12 y ((hR y).mp ((mem_orderBy _ _ _).mp h1))
+    · exact hreach12 y ((hR y).mp ((mem_missingOf _ _ _).mp h1).1)
   · -- no file was added: the indexed files are the reachable existing files
     intro hb
     have hno : ∀ y, y ∈ computeReachable w → w1.idx.files.get y = none → fsr.get y = none := by
@@ -575,7 +578,7 @@ theorem round_ok (cfg : Cfg) (σ : List String) (fsr fsd : FS) (w : WS)
       cases e : fsr.get y with
       | none => rfl
       | some c =>
-        have : r.2 = true := ha.flag.mpr (Or.inr ⟨y, (mem_orderBy _ _ _).mpr hy, hyn, by rw [e]; rfl⟩)
+        have : r.2 = true := ha.flag.mpr (Or.inr ⟨y, (mem_missingOf _ _ _).mpr ⟨hy, hyn⟩, by rw [e]; rfl⟩)
         rw [hb] at this; simp at this
     have hsame : ∀ y, r.1.idx.files.get y = w1.idx.files.get y := by
       intro y
@@ -588,7 +591,7 @@ theorem round_ok (cfg : Cfg) (σ : List String) (fsr fsd : FS) (w : WS)
           have := (ha.files y).mp (by rw [e2]; rfl)
           rcases this with h1 | ⟨h1, h2⟩
           · rw [e] at h1; simp at h1
-          · rw [hno y ((mem_orderBy _ _ _).mp h1) e] at h2; simp at h2
+          · rw [hno y ((mem_missingOf _ _ _).mp h1).1 e] at h2; simp at h2
     intro p
     rw [hroot2, hsame p]
     constructor
@@ -649,9 +652,10 @@ theorem round_ok (cfg : Cfg) (σ : List String) (fsr fsd : FS) (w : WS)
       | some fi =>
         have := ha.keep a fi (by rw [hw1eq a]; exact e)
         simp_all
-    · obtain hf | ⟨y, hy1, hy2, hy3⟩ := ha.flag.mp hb
+    · obtain hf | ⟨y, hy1, hy3⟩ := ha.flag.mp hb
       · simp at hf
-      · refine ⟨y, (mem_keys_iff _ _).mpr hy3, ?_, ?_⟩
+      · have hy2 := ((mem_missingOf _ _ _).mp hy1).2
+        refine ⟨y, (mem_keys_iff _ _).mpr hy3, ?_, ?_⟩
         · rw [← hw1eq y, hy2]; rfl
         · have := (ha.files y).mpr (Or.inr ⟨hy1, hy3⟩)
           cases e : r.1.idx.files.get y with
@@ -666,17 +670,17 @@ structure RefreshOk (cfg : Cfg) (fsd : FS) (w w' : WS) : Prop where
   none : CachesNone w'
   root : w'.root = w.root
 
-theorem refreshF_ok (cfg : Cfg) (σ : List String) (fsr fsd : FS) (hok : fsOk fsd = true) :
+theorem refreshF_ok (cfg : Cfg) (fsr fsd : FS) (hok : fsOk fsd = true) :
     ∀ (n : Nat) (w : WS), PInv cfg fsd w → CachesNone w → Agree fsr fsd w → Keep fsr fsd w →
-      Sound w → mu fsr w < n → RefreshOk cfg fsd w (refreshF cfg σ fsr n w) := by
+      Sound w → mu fsr w < n → RefreshOk cfg fsd w (refreshF cfg fsr n w) := by
   intro n
   induction n with
   | zero => intro w _ _ _ _ _ h; omega
   | succ n ih =>
     intro w h hnone hag hkeep hs hmu
     rw [refreshF_succ]
-    have hr := round_ok cfg σ fsr fsd w h hok hnone hag hkeep
-    cases hb : (round cfg σ fsr w).2 with
+    have hr := round_ok cfg fsr fsd w h hok hnone hag hkeep
+    cases hb : (round cfg fsr w).2 with
     | false =>
       simp only [Bool.false_eq_true, if_false]
       exact ⟨hr.pinv, hr.closed hb, hr.none, hr.root⟩
@@ -688,25 +692,25 @@ theorem refreshF_ok (cfg : Cfg) (σ : List String) (fsr fsd : FS) (hok : fsOk fs
 
 /-- `refreshIncludeTreeLocked` restores the invariant and makes the index hold exactly the
     existing files reachable from the root; the fuel `len(disk) + 2` suffices. -/
-theorem refresh_ok (cfg : Cfg) (σ : List String) (fsr fsd : FS) (w : WS) (hok : fsOk fsd = true)
+theorem refresh_ok (cfg : Cfg) (fsr fsd : FS) (w : WS) (hok : fsOk fsd = true)
     (h : PInv cfg fsd w) (hnone : CachesNone w) (hag : Agree fsr fsd w) (hkeep : Keep fsr fsd w) :
-    RefreshOk cfg fsd w (refreshIncludeTree cfg σ fsr w) := by
+    RefreshOk cfg fsd w (refreshIncludeTree cfg fsr w) := by
   unfold refreshIncludeTree
   simp only [h.root_ne, if_false]
   rw [refreshF_succ]
-  have hr := round_ok cfg σ fsr fsd w h hok hnone hag hkeep
-  cases hb : (round cfg σ fsr w).2 with
+  have hr := round_ok cfg fsr fsd w h hok hnone hag hkeep
+  cases hb : (round cfg fsr w).2 with
   | false =>
     simp only [Bool.false_eq_true, if_false]
     exact ⟨hr.pinv, hr.closed hb, hr.none, hr.root⟩
   | true =>
     simp only [if_true]
-    have hmu : mu fsr (round cfg σ fsr w).1 < fsr.length + 1 := by
+    have hmu : mu fsr (round cfg fsr w).1 < fsr.length + 1 := by
       unfold mu
-      have := List.length_filter_le (fun q => ((round cfg σ fsr w).1.idx.files.get q).isNone) fsr.keys
+      have := List.length_filter_le (fun q => ((round cfg fsr w).1.idx.files.get q).isNone) fsr.keys
       simp only [AList.keys, List.length_map] at this ⊢
       omega
-    have := refreshF_ok cfg σ fsr fsd hok _ _ hr.pinv hr.none hr.agree hr.keep hr.sound hmu
+    have := refreshF_ok cfg fsr fsd hok _ _ hr.pinv hr.none hr.agree hr.keep hr.sound hmu
     exact ⟨this.pinv, this.closed, this.none, this.root.trans hr.root⟩
 
 end HL.Lemmas.Refresh
